@@ -1,5 +1,274 @@
 import QModel.Core
-/-! C14 — model (not built yet) -/
+/-!
+# C14 — sampled data and empirical distributions (model of quara/qcircuit/data_generator.py,
+quara/utils/number_util.py:to_stream and the seed plumbing of quara/qcircuit/experiment.py)
+
+The model mirrors the code as it is:
+
+* `randomNumberToData` = `_random_number_to_data`: the cumulative-sum loop with the strict test
+  `random_number < cumulative_sum`, and the fall-through `len(probdist) - 1` (an `Int`: `-1` for an empty vector);
+* `calcEmpiDistSequence` = `calc_empi_dist_sequence`: one pass over the data, a running frequency vector, the
+  requested sample sizes consumed one after the other, the validation errors in the order of the code (note: a
+  first sample size `≤ 0` is never reached — the loop then validates all data and returns the empty list);
+* `toStream` / `Store`: `None` → the global numpy state, `int` → a *fresh* generator seeded with it, generator →
+  itself; the pseudo-random generator is abstract (`PRNG`: `seed`, `next` uniform, `multi` multinomial draw);
+* `genData`, `genDataset`, `genEmpiSeq`, `genEmpisSeq` = the `generate_*` functions of data_generator.py as called
+  by `Experiment.generate_data / generate_dataset / generate_empi_dist_sequence / generate_empi_dists_sequence`
+  (which convert the argument with `to_stream` once and hand the stream on).
+-/
 namespace QM.C14
-def handle (_args : List String) : Option String := none
+
+/-! ## `_random_number_to_data` -/
+
+/-- the `for index, prob in enumerate(probdist)` loop from position `idx` with running sum `cum` -/
+def r2dLoop : List Rat → Rat → Rat → Nat → Option Nat
+  | [], _, _, _ => none
+  | p :: ps, u, cum, idx => if u < cum + p then some idx else r2dLoop ps u (cum + p) (idx + 1)
+
+def randomNumberToData (probs : List Rat) (u : Rat) : Int :=
+  match r2dLoop probs u 0 0 with
+  | some i => (i : Int)
+  | none => (probs.length : Int) - 1
+
+/-- `generate_data_from_prob_dist` after the random numbers have been drawn -/
+def dataOfUniforms (probs : List Rat) (us : List Rat) : List Int := us.map (randomNumberToData probs)
+
+/-! ## `calc_empi_dist_sequence` -/
+
+inductive EmpiErr
+  | negativeMeasurementNum
+  | numSumTooLarge (pos : Nat)     -- num_sums[pos] > len(data)
+  | dataOutOfRange (index : Nat)   -- not 0 <= data[index] < measurement_num
+  | notIncreasing (pos : Nat)      -- num_sums[pos-1] >= num_sums[pos]
+deriving Repr, DecidableEq
+
+def EmpiErr.toString : EmpiErr → String
+  | .negativeMeasurementNum => "negativeMeasurementNum"
+  | .numSumTooLarge p => s!"numSumTooLarge {p}"
+  | .dataOutOfRange i => s!"dataOutOfRange {i}"
+  | .notIncreasing p => s!"notIncreasing {p}"
+
+/-- `cumulative_frequency[d] += 1` -/
+def bump : List Nat → Nat → List Nat
+  | [], _ => []
+  | c :: cs, 0 => (c + 1) :: cs
+  | c :: cs, d + 1 => c :: bump cs d
+
+/-- the loop `for index, d in enumerate(data)`.
+`next` = `next_num_sum`, `pos` = `next_num_sum_position`, `rest` = `num_sums[pos+1:]`, `acc` = `empi_dists` reversed. -/
+def empiLoop (m : Nat) (lenData : Nat) :
+    List Int → Nat → List Nat → Int → Nat → List Int → List (Int × List Rat) → Except EmpiErr (List (Int × List Rat))
+  | [], _, _, _, _, _, acc => .ok acc.reverse
+  | d :: ds, index, freq, next, pos, rest, acc =>
+    if ¬ (0 ≤ d ∧ d < (m : Int)) then .error (.dataOutOfRange index)
+    else
+      let freq' := bump freq d.toNat
+      if ((index : Int) + 1) = next then
+        let acc' := (next, freq'.map fun (c : Nat) => ((c : Int) : Rat) / (((index + 1 : Nat) : Int) : Rat)) :: acc
+        match rest with
+        | [] => .ok acc'.reverse
+        | n2 :: rest' =>
+          if n2 > (lenData : Int) then .error (.numSumTooLarge (pos + 1))
+          else if next ≥ n2 then .error (.notIncreasing (pos + 1))
+          else empiLoop m lenData ds (index + 1) freq' n2 (pos + 1) rest' acc'
+      else empiLoop m lenData ds (index + 1) freq' next pos rest acc
+
+def calcEmpiDistSequence (measurementNum : Int) (data : List Int) (numSums : List Int) :
+    Except EmpiErr (List (Int × List Rat)) :=
+  if measurementNum < 0 then .error .negativeMeasurementNum
+  else match numSums with
+    | [] => .ok []
+    | n0 :: rest =>
+      if n0 > (data.length : Int) then .error (.numSumTooLarge 0)
+      else empiLoop measurementNum.toNat data.length data 0 (List.replicate measurementNum.toNat 0) n0 0 rest []
+
+/-! ## streams -/
+
+/-- abstract deterministic pseudo-random generator: `seed s` = `Generator(MT19937(s))`, `next` = one uniform,
+`multi g n p` = `multinomial.rvs(n, p, random_state=g)` -/
+structure PRNG (G : Type) where
+  seed : Int → G
+  next : G → Rat × G
+  multi : G → Int → List Rat → List Int × G
+
+/-- `stream.random(n)` -/
+def drawN {G : Type} (P : PRNG G) : G → Nat → List Rat × G
+  | g, 0 => ([], g)
+  | g, n + 1 =>
+    let (u, g1) := P.next g
+    let (us, g2) := drawN P g1 n
+    (u :: us, g2)
+
+/-- the `seed_or_generator` argument -/
+inductive SeedArg
+  | none                -- use the global numpy state
+  | int (s : Int)       -- fresh generator
+  | gen (k : Nat)       -- the k-th generator object the caller holds
+deriving Repr, DecidableEq
+
+/-- the random state of the world: the global numpy state and the caller's generator objects -/
+structure Store (G : Type) where
+  glob : G
+  gens : List G
+
+/-- what `to_stream` returns -/
+inductive Stream (G : Type)
+  | glob
+  | fresh (g : G)        -- a generator object nobody else holds
+  | held (k : Nat)
+
+def toStream {G : Type} (P : PRNG G) : SeedArg → Stream G
+  | .none => .glob
+  | .int s => .fresh (P.seed s)
+  | .gen k => .held k
+
+/-- read the generator state behind a stream (`none`: the caller passed a generator it does not hold) -/
+def Stream.get {G : Type} (st : Store G) : Stream G → Option G
+  | .glob => some st.glob
+  | .fresh g => some g
+  | .held k => st.gens[k]?
+
+/-- write the advanced state back; a fresh generator stays the same *object*, so later uses of the same stream see
+the advanced state: the result stream carries it -/
+def Stream.put {G : Type} (st : Store G) : Stream G → G → Store G × Stream G
+  | .glob, g => ({ st with glob := g }, .glob)
+  | .fresh _, g => (st, .fresh g)
+  | .held k, g => ({ st with gens := st.gens.set k g }, .held k)
+
+/-- `generate_data_from_prob_dist(prob_dist, data_num, stream)` on an already converted stream -/
+def genDataOn {G : Type} (P : PRNG G) (st : Store G) (s : Stream G) (probs : List Rat) (n : Nat) :
+    Option (List Int × Store G × Stream G) :=
+  match s.get st with
+  | none => none
+  | some g =>
+    let (us, g') := drawN P g n
+    let (st', s') := s.put st g'
+    some (dataOfUniforms probs us, st', s')
+
+/-- `Experiment.generate_data` / `generate_data_from_prob_dist` with a raw argument -/
+def genData {G : Type} (P : PRNG G) (st : Store G) (a : SeedArg) (probs : List Rat) (n : Nat) :
+    Option (List Int × Store G) :=
+  (genDataOn P st (toStream P a) probs n).map fun r => (r.1, r.2.1)
+
+/-- `Experiment.generate_dataset`: `stream = to_stream(arg)`; `seeds_or_generators = [stream] * len`;
+every schedule draws from the same stream object in order -/
+def genDatasetOn {G : Type} (P : PRNG G) : Store G → Stream G → List (List Rat × Nat) →
+    Option (List (List Int) × Store G × Stream G)
+  | st, s, [] => some ([], st, s)
+  | st, s, (probs, n) :: rest =>
+    match genDataOn P st s probs n with
+    | none => none
+    | some (d, st', s') =>
+      match genDatasetOn P st' s' rest with
+      | none => none
+      | some (ds, st'', s'') => some (d :: ds, st'', s'')
+
+def genDataset {G : Type} (P : PRNG G) (st : Store G) (a : SeedArg) (jobs : List (List Rat × Nat)) :
+    Option (List (List Int) × Store G) :=
+  (genDatasetOn P st (toStream P a) jobs).map fun r => (r.1, r.2.1)
+
+/-- `generate_empi_dist_sequence_from_prob_dist` on a converted stream: one multinomial draw per sample size -/
+def genEmpiSeqOn {G : Type} (P : PRNG G) : Store G → Stream G → List Rat → List Int →
+    Option (List (Int × List Rat) × Store G × Stream G)
+  | st, s, _, [] => some ([], st, s)
+  | st, s, probs, n :: ns =>
+    match s.get st with
+    | none => none
+    | some g =>
+      let (counts, g') := P.multi g n probs
+      let (st', s') := s.put st g'
+      match genEmpiSeqOn P st' s' probs ns with
+      | none => none
+      | some (r, st'', s'') => some ((n, counts.map fun (c : Int) => (c : Rat) / (n : Rat)) :: r, st'', s'')
+
+/-- `generate_empi_dists_sequence_from_prob_dists`: one stream for all distributions, in order -/
+def genEmpisSeqOn {G : Type} (P : PRNG G) : Store G → Stream G → List (List Rat × List Int) →
+    Option (List (List (Int × List Rat)) × Store G × Stream G)
+  | st, s, [] => some ([], st, s)
+  | st, s, (probs, ns) :: rest =>
+    match genEmpiSeqOn P st s probs ns with
+    | none => none
+    | some (r, st', s') =>
+      match genEmpisSeqOn P st' s' rest with
+      | none => none
+      | some (rs, st'', s'') => some (r :: rs, st'', s'')
+
+def genEmpisSeq {G : Type} (P : PRNG G) (st : Store G) (a : SeedArg) (jobs : List (List Rat × List Int)) :
+    Option (List (List (Int × List Rat)) × Store G) :=
+  (genEmpisSeqOn P st (toStream P a) jobs).map fun r => (r.1, r.2.1)
+
+/-- `Experiment.reset_seed_data(seed)`: reseeds the *global* numpy state (`np.random.seed`) unless `None` -/
+def resetSeedData {G : Type} (reseedGlobal : Int → G) (st : Store G) : Option Int → Store G
+  | none => st
+  | some s => { st with glob := reseedGlobal s }
+
+/-! ## driver: a *tape* PRNG makes the stream plumbing executable — the harness records what the real generator
+produced (uniforms, multinomial count vectors, in order of consumption) and the model consumes the tape through the
+same plumbing -/
+
+structure Tape where
+  us : List Rat
+  ms : List (List Int)
+
+def tapePRNG : PRNG Tape where
+  seed := fun _ => ⟨[], []⟩
+  next := fun t => match t.us with
+    | [] => (0, t)                      -- the driver checks the tape length beforehand (`tape-short`)
+    | u :: r => (u, { t with us := r })
+  multi := fun t _ _ => match t.ms with
+    | [] => ([], t)
+    | c :: r => (c, { t with ms := r })
+
+def showEmpi (r : Except EmpiErr (List (Int × List Rat))) : String :=
+  match r with
+  | .error e => s!"err {e.toString}"
+  | .ok l => if l.isEmpty then "ok ~" else
+      "ok " ++ ";".intercalate (l.map fun (n, e) => s!"{n}:{showList showRat e}")
+
+def handle (args : List String) : Option String :=
+  match args with
+  | ["r2d", probs, u] => do
+      let probs ← parseList? parseRat? probs
+      let u ← parseRat? u
+      some (toString (randomNumberToData probs u))
+  | ["data", probs, us] => do
+      let probs ← parseList? parseRat? probs
+      let us ← parseList? parseRat? us
+      some (showList toString (dataOfUniforms probs us))
+  | ["empi", m, data, ns] => do
+      let m ← parseInt? m
+      let data ← parseList? parseInt? data
+      let ns ← parseList? parseInt? ns
+      some (showEmpi (calcEmpiDistSequence m data ns))
+  | ["dataset", tape, jobs] => do
+      -- jobs: `probs@n` joined by `|`; the shared stream is a fresh generator whose output is `tape`
+      let tape ← parseList? parseRat? tape
+      let jobs ← (jobs.splitOn "|").mapM fun j => match j.splitOn "@" with
+        | [p, n] => do
+            let p ← parseList? parseRat? p
+            let n ← parseNat? n
+            some (p, n)
+        | _ => none
+      if tape.length < (jobs.map (·.2)).foldl (· + ·) 0 then some "tape-short"
+      else match genDatasetOn tapePRNG ⟨⟨[], []⟩, []⟩ (.fresh ⟨tape, []⟩) jobs with
+        | none => some "no-generator"
+        | some (ds, _, s) =>
+          let left := match s with | .fresh t => t.us.length | _ => 0
+          some s!"{"|".intercalate (ds.map (showList toString))} left={left}"
+  | ["empis", tape, jobs] => do
+      -- tape: count vectors joined by `|`; jobs: `probs@n1,n2,..` joined by `|`
+      let tape ← (tape.splitOn "|").mapM (parseList? parseInt?)
+      let jobs ← (jobs.splitOn "|").mapM fun j => match j.splitOn "@" with
+        | [p, ns] => do
+            let p ← parseList? parseRat? p
+            let ns ← parseList? parseInt? ns
+            some (p, ns)
+        | _ => none
+      if tape.length < (jobs.map (·.2.length)).foldl (· + ·) 0 then some "tape-short"
+      else match genEmpisSeqOn tapePRNG ⟨⟨[], []⟩, []⟩ (.fresh ⟨[], tape⟩) jobs with
+        | none => some "no-generator"
+        | some (rs, _, _) =>
+          some ("|".intercalate (rs.map fun r => showEmpi (.ok r)))
+  | _ => none
+
 end QM.C14
